@@ -277,3 +277,55 @@ package keeper
 //@        && val(Validators[k]).OperatorAddress == val(V0[k]).OperatorAddress && val(Validators[k]).ConsensusPubkey == val(V0[k]).ConsensusPubkey
 //@   walk 0 invariant forall k bytes :: V0[k] != None && $idx(k) >= $i ==> Validators[k] == V0[k]
 //@   assigns Validators, ValidatorsByConsAddr, Params
+
+// ---- L1 validator snapshot (host validator store) --------------------------------------------------
+
+//@ func (HostValidatorStore) GetPowerByConsAddr
+//@   ensures err == nil <==> validators[consAddr] != None                                                                      // C15: unknown_validator_has_no_power
+//@   ensures err == nil ==> ret0 == bondedTokens(val(validators[consAddr]))                                                    // C15: power_of_the_recorded_validator
+//@   assigns \nothing
+
+//@ func (HostValidatorStore) GetPubKeyByConsAddr
+//@   ensures err == nil ==> validators[consAddr] != None && ret0 == cmtConsPublicKey(val(validators[consAddr]))               // C15: key_of_the_recorded_validator
+//@   assigns \nothing
+
+//@ func (HostValidatorStore) UpdateValidators
+//@   ensures old(g.lastHeight) != None && val(old(g.lastHeight)) >= height ==> err == nil && g.validators == old(g.validators) && g.lastHeight == old(g.lastHeight)   // C15: only_replaced_by_higher_height
+//@   ensures err == nil && height > 0 && (old(g.lastHeight) == None || val(old(g.lastHeight)) < height) ==> g.lastHeight == Some(height)                                    // C15: records_the_new_height
+//@   assigns validators, lastHeight
+
+//@ func (Keeper) UpdateHostValidatorSet
+//@   ensures clientID == "" ==> err == nil && validators == old(validators) && lastHeight == old(lastHeight)                                              // C15: empty_client_ignored
+//@   ensures BridgeInfo != None && val(BridgeInfo).L1ClientId != clientID ==> err == nil && validators == old(validators) && lastHeight == old(lastHeight) // C15: only_the_configured_l1_client
+//@   ensures err == nil && (validators != old(validators) || lastHeight != old(lastHeight)) ==> BridgeInfo != None && clientID == val(BridgeInfo).L1ClientId
+//@        && (old(lastHeight) == None || val(old(lastHeight)) < height) && lastHeight == Some(height)                                                     // C15: set_replaced_only_by_higher_height_from_l1_client
+//@   assigns validators, lastHeight
+
+// TotalBondedTokens sums BondedTokens over the snapshot (store walk + big-int sum); it is used by contract only:
+// the total is a function of the snapshot (assumed, listed in the evidence).
+//@ func (HostValidatorStore) TotalBondedTokens
+//@   opt trusted
+//@   ensures err == nil && ret0 == totalBonded(g.validators)
+//@   assigns \nothing
+
+// ---- oracle update (C15) ------------------------------------------------------------------------------
+
+//@ func (L2OracleHandler) UpdateOracle
+//@   let h := height
+//@   assumes height < 9223372036854775808                                                                                        // A-HEIGHT: heights fit int64 (the conversion int64(height) is the identity)
+//@   ensures err == nil ==> g.lastHeight != None && val(g.lastHeight) <= h                                                       // C15: update_height_not_older_than_validator_set
+//@   ensures err == nil ==> BridgeInfo != None && $called("ValidateVoteExtensions") == 1 && $ret("ValidateVoteExtensions", 0) == nil
+//@        && $arg("ValidateVoteExtensions", 2) == h - 1 && $arg("ValidateVoteExtensions", 3) == val(BridgeInfo).L1ChainId
+//@        && $arg("ValidateVoteExtensions", 4) == decodeExtCommit(extCommitBz)                                                   // C15: signatures_checked_for_l1_chain_id_and_height_minus_one
+//@   ensures err == nil ==> $called("WritePrices") == 1 && $called("GetOracleVotes") == 1 && $arg("GetOracleVotes", 1) == decodeExtCommit(extCommitBz)   // C15: prices_come_from_the_validated_commit
+//@   ensures err == nil ==> forall cp `S_pkg_types_CurrencyPair` :: oracle.price[cp] != old(oracle.price)[cp] ==>
+//@        oracle.price[cp] != None && (old(oracle.price)[cp] == None || val(oracle.price[cp]).BlockTimestamp > val(old(oracle.price)[cp]).BlockTimestamp)   // C15: accepted_timestamp_strictly_increases_per_pair
+//@   ensures err != nil ==> true
+//@   assigns oracle.price
+
+//@ func (MsgServer) UpdateOracle
+//@   ensures err == nil ==> Params != None && addrOK(1, req.Sender) && (exists j int :: 0 <= j && j < len(val(Params).BridgeExecutors)
+//@        && addrOK(1, val(Params).BridgeExecutors[j]) && addrBytes(1, val(Params).BridgeExecutors[j]) == addrBytes(1, req.Sender))   // C12,C15: executor_only
+//@   ensures err == nil ==> BridgeInfo != None && val(BridgeInfo).BridgeConfig.OracleEnabled                                      // C15: only_while_oracle_enabled
+//@   ensures err == nil ==> $called("UpdateOracle") == 1 && $arg("UpdateOracle", 2) == req.Height && $arg("UpdateOracle", 3) == req.Data   // C15: handler_gets_the_message_height_and_data
+//@   assigns oracle.price, events
